@@ -35,7 +35,6 @@ ASSUMPTIONS = [
     "the dispatcher runs service() of a channel once per add_task (C14)",
 ]
 
-KF_EXPECT = "kf_c19_expect_complete_at_head"
 KF_FLUSH = "kf_c19_unlocked_flush_race"
 
 
@@ -235,24 +234,17 @@ def run(ctx):
             kinds_seen[r.kind] += 1
         if any(r.asks for r in reqs):
             nontrivial.add(_h([[r.kind, len(r.body), r.close] for r in reqs] + [[s[0], len(s[1]) if s[0] == "read" else 0] for s in script] + [la]))
+        if H.complete_at_head_hit(reqs, res["kf_hits"]):
+            seq_stats["send_continue_on_completed_request"] += 1   # the class of the former F5/F6
         if probs:
-            kf = H.kf_class_of(reqs, res["kf_hits"])
-            if kf:
-                kf_seen[kf] += 1
-                if kf_seen[kf] <= 1:
-                    ctx.report("seq:" + kf, "finding F5/F6 reproduced on the real channel",
-                               seq_replay_dict(reqs, script, la, probs, res), kf_class=KF_EXPECT)
-            else:
-                seq_viol.append((reqs, script, la))
-                seq_stats["violations"] += 1
-        elif res["kf_hits"]:
-            seq_stats["kf_hit_without_symptom"] += 1
+            seq_viol.append((reqs, script, la))
+            seq_stats["violations"] += 1
     for reqs, script, la in seq_viol[:3]:
         reqs, script, la = shrink_seq(reqs, script, la)
         res, probs = seq_check(reqs, script, la)
         ctx.report("seq-monitor:" + (probs[0][:40] if probs else "?"), "C19 monitor fails on a sequential script: " + "; ".join(probs[:2]),
                    seq_replay_dict(reqs, script, la, probs, res))
-    ctx.oblige("search (sequential): C19 monitor holds on every script outside the class of F5/F6", not seq_viol,
+    ctx.oblige("search (sequential): C19 monitor holds on every script", not seq_viol,
                "%d violating scripts" % len(seq_viol))
     if len(samples) < 3:
         reqs, script, la = seq_case(ctx, random.Random(1), seq_stats)
@@ -280,13 +272,10 @@ def run(ctx):
         if race:
             w_stats["unlocked_flush_race"] += 1
         probs = H.world_monitor(w, reqs, waited, v, bf)
+        if H.complete_at_head_hit(reqs, w.kf_hits):
+            w_stats["send_continue_on_completed_request"] += 1
         if probs:
-            if w.kf_hits and H.kf_class_of(reqs, w.kf_hits):
-                kf_seen[KF_EXPECT + "/world"] += 1
-                if kf_seen[KF_EXPECT + "/world"] <= 1:
-                    ctx.report("world:" + KF_EXPECT, "finding F5/F6 reproduced under the scheduler",
-                               world_replay_dict("world", reqs, script, la, nw, bf, gran, w, probs), kf_class=KF_EXPECT)
-            elif race:
+            if race:
                 kf_seen[KF_FLUSH] += 1
                 if kf_seen[KF_FLUSH] <= 1:
                     ctx.report("world:" + KF_FLUSH, "finding F18 (C04) shows as a duplicated interim response",
@@ -304,7 +293,7 @@ def run(ctx):
                     model_schedules.add(_h(choices))
         return probs
 
-    n_rand = 60 if thorough else 12          # schedules per scenario and policy family
+    n_rand = 60 if thorough else 20          # schedules per scenario and policy family
     for name, kinds, mode, la in WORLD_SCENARIOS:
         for variant in range(2):
             reqs = scenario_reqs(kinds, rng)
@@ -326,8 +315,8 @@ def run(ctx):
                 pol = RandomPolicy(random.Random(seed), stay=0.7)
                 w, v = world_case(reqs, script, la, nw, bf, policy=pol, granularity="attrs", max_steps=8000)
                 judge(reqs, script, waited, la, nw, bf, "attrs", w, v, do_conf=False)
-    # generated pipelines (including the class of F5/F6) under random schedules
-    n_gen = 1500 if thorough else 250
+    # generated pipelines (including the class of the former F5/F6) under random schedules
+    n_gen = 2500 if thorough else 400
     for it in range(n_gen):
         reqs = H.gen_pipeline(rng, allow_kf=(it % 4 == 0), n=rng.choice([2, 2, 3]))
         mode = rng.choice(["same_read", "later_read"])
@@ -340,7 +329,7 @@ def run(ctx):
         w, v = world_case(reqs, script, la, nw, bf, policy=pol)
         judge(reqs, script, waited, la, nw, bf, "locks", w, v)
     # bounded exhaustive exploration of the smallest scenario
-    ex_limit = 4000 if thorough else 350
+    ex_limit = 5000 if thorough else 700
     ex_reqs = [H.Req(0, "get"), H.Req(1, "expect_cl", b"xy")]
     ex_script, ex_waited = H.world_script(ex_reqs, "same_read")
 
@@ -350,12 +339,11 @@ def run(ctx):
         judge(ex_reqs, ex_script, ex_waited, 0, 1, False, "locks", w, v)
         return w.sched
 
-    ex = explore(run_case, 2 if thorough else 1, limit=ex_limit)
+    ex = explore(run_case, 3 if thorough else 2, limit=ex_limit)
     w_stats["explore_runs"] = ex["runs"]
     w_stats["explore_truncated"] = int(ex["truncated"])
-    w_stats["explore_per_preemption_level"] = 0
     cov["explore"] = {"scenario": "GET /r0 + head of expecting POST /r1 in one send, client waits, then body",
-                      "max_preemptions": 2 if thorough else 1, "runs": ex["runs"],
+                      "max_preemptions": 3 if thorough else 2, "runs": ex["runs"],
                       "per_preemption_level": ex["per_preemption_level"], "truncated": ex["truncated"]}
 
     for reqs, script, la, nw, bf, gran, w, probs in mon_fail[:3]:
@@ -364,7 +352,7 @@ def run(ctx):
     for reqs, script, la, nw, bf, gran, w, prob in conf_fail[:2]:
         ctx.report("K-chanexpect:" + prob.split(":")[0][-30:], "real trace not allowed by Model/ChanExpect.v: " + prob,
                    world_replay_dict("conformance", reqs, script, la, nw, bf, gran, w, prob))
-    ctx.oblige("search (interleaved): C19 monitor holds on every run outside the classes of F5/F6 and F18", not mon_fail,
+    ctx.oblige("search (interleaved): C19 monitor holds on every run outside the class of F18 (C04)", not mon_fail,
                "%d violating runs" % len(mon_fail))
     ctx.oblige("K-chanexpect: every observed transition is a step of Model/ChanExpect.v with the same abstract state",
                runner_ce is not None and not conf_fail and traces_validated > 0, "%d traces fail" % len(conf_fail))
